@@ -34,46 +34,43 @@ Proof.
     + apply IH. exact Hd.
 Qed.
 
-Lemma all_required_seed_spec ms r :
-  all_required_seed ms = Ok r ->
-  no_consts ms = true /\ r = map fst (filter (fun nm => negb (has_default (snd nm))) ms).
+Lemma all_required_seed_spec ms :
+  all_required_seed ms = map fst (filter (fun nm => negb (has_default (snd nm))) ms).
 Proof.
-  revert r. induction ms as [|[n m] t IH]; cbn [all_required_seed]; intros r H.
-  - inversion H. split; reflexivity.
-  - destruct m as [f|v]; [|discriminate].
-    apply bind_ok in H as [r' [Hr H]]. apply IH in Hr as [Hc Hr]. inversion H; subst; clear H.
-    cbn [no_consts forallb snd is_const negb andb filter has_default fst].
-    split; [exact Hc|]. destruct (fo_default f); reflexivity.
-Qed.
-
-Lemma all_required_seed_const ms : no_consts ms = false -> all_required_seed ms = Raise AttributeError.
-Proof.
-  induction ms as [|[n m] t IH]; cbn [no_consts forallb snd]; intro H; [discriminate|].
-  destruct m as [f|v]; cbn [all_required_seed]; [|reflexivity].
-  cbn [is_const negb andb] in H. fold (no_consts t) in H. rewrite (IH H). reflexivity.
+  induction ms as [|[n m] t IH]; cbn [all_required_seed filter snd]; [reflexivity|].
+  destruct (has_default m); cbn [negb map fst]; rewrite IH; reflexivity.
 Qed.
 
 (* the class dict an operator builds: the documented members, the documented _required seed *)
-Lemma derive_stmt_spec k o cn s :
-  derive_stmt k o cn = Ok s ->
+Lemma derive_stmt_spec inh k o cn s :
+  derive_stmt inh k o cn = Ok s ->
   exists ms, doc_fields o (k_all k) = Ok ms /\
-             s = derived_stmt (derived_name o cn k) k ms (doc_required o (k_all k) (k_required k)).
+             s = derived_stmt (derived_name o cn k) (effective_ignore_none inh k) ms
+                              (doc_required o (k_all k) (k_required k)).
 Proof.
   unfold derive_stmt. destruct o as [| | |ns|ns]; cbn [doc_fields doc_required]; intro H.
   - inversion H. eexists; split; reflexivity.
-  - apply bind_ok in H as [r [Hr H]]. apply all_required_seed_spec in Hr as [_ Hr]. inversion H; subst.
-    eexists; split; reflexivity.
+  - inversion H. rewrite all_required_seed_spec. eexists; split; reflexivity.
   - inversion H. eexists; split; reflexivity.
   - destruct (forallb _ ns); [|discriminate]. inversion H. eexists; split; reflexivity.
   - destruct (forallb _ ns); [|discriminate]. inversion H. eexists; split; reflexivity.
 Qed.
 
-Lemma derive_stmt_bad_name_omit k ns cn :
-  forallb (fun n => alist_has (k_all k) n) ns = false -> derive_stmt k (OpOmit ns) cn = Raise TypeError.
+(* every operator builds a class dict whenever the documented field set exists (no operator/source
+   combination fails on its own) *)
+Lemma derive_stmt_total inh k o cn :
+  is_ok (doc_fields o (k_all k)) = true -> is_ok (derive_stmt inh k o cn) = true.
+Proof.
+  unfold derive_stmt. destruct o as [| | |ns|ns]; cbn [doc_fields]; try reflexivity;
+    destruct (forallb _ ns); intro H; try reflexivity; discriminate.
+Qed.
+
+Lemma derive_stmt_bad_name_omit inh k ns cn :
+  forallb (fun n => alist_has (k_all k) n) ns = false -> derive_stmt inh k (OpOmit ns) cn = Raise TypeError.
 Proof. unfold derive_stmt. intros ->. reflexivity. Qed.
 
-Lemma derive_stmt_bad_name_pick k ns cn :
-  forallb (fun n => alist_has (k_all k) n) ns = false -> derive_stmt k (OpPick ns) cn = Raise TypeError.
+Lemma derive_stmt_bad_name_pick inh k ns cn :
+  forallb (fun n => alist_has (k_all k) n) ns = false -> derive_stmt inh k (OpPick ns) cn = Raise TypeError.
 Proof. unfold derive_stmt. intros ->. reflexivity. Qed.
 
 Section DeriveProofs.
@@ -114,7 +111,7 @@ Section DeriveProofs.
                              (dedup_str (doc_required o (k_all k) (k_required k))) /\
       k_mro k' = [derived_name o cn k; n_Structure] /\
       k_name k' = derived_name o cn k /\
-      k_ignore_none k' = k_ignore_none k.
+      k_ignore_none k' = effective_ignore_none (bases_ignore_none g k) k.
   Proof.
     intros Hb H. unfold Derive.derive in H. apply bind_ok in H as [s [Hs H]].
     apply derive_stmt_spec in Hs as [ms [Hdoc Hs]]. subst s.
@@ -331,7 +328,7 @@ Section DeriveProofs.
     assert (Hf : forallb (fun n => alist_has (k_all k) n) ns = false).
     { apply not_true_is_false. intro Ht. rewrite forallb_forall in Ht. apply Hnot.
       apply alist_has_In. apply Ht. exact Hin. }
-    unfold Derive.derive. rewrite (derive_stmt_bad_name_omit k ns cn Hf), (derive_stmt_bad_name_pick k ns cn Hf).
+    unfold Derive.derive. rewrite (derive_stmt_bad_name_omit _ k ns cn Hf), (derive_stmt_bad_name_pick _ k ns cn Hf).
     split; reflexivity.
   Qed.
 
@@ -344,6 +341,49 @@ Section DeriveProofs.
     intros Hb H _ n Hn. destruct (derive_spec g k o cn k' Hb H) as [ms [_ [_ [_ [_ [_ [_ [Hname _]]]]]]]].
     cbn [find_klass]. rewrite Hname. destruct (pystr_eqb (derived_name o cn k) n) eqn:E; [|reflexivity].
     apply pystr_eqb_spec in E. congruence.
+  Qed.
+
+  (* ---------------------------------------------------------------- no operator fails on its own *)
+
+  Theorem derive_total g k o cn :
+    is_ok (doc_fields o (k_all k)) = true ->
+    (forall s, derive_stmt (bases_ignore_none g k) k o cn = Ok s -> is_ok (define g s) = true) ->
+    is_ok (derive g k o cn) = true.
+  Proof.
+    intros Hdoc Hdef. unfold Derive.derive.
+    pose proof (derive_stmt_total (bases_ignore_none g k) k o cn Hdoc) as Hs.
+    destruct (derive_stmt (bases_ignore_none g k) k o cn) as [s|x] eqn:Es; [|discriminate].
+    cbn [bind]. apply Hdef. reflexivity.
+  Qed.
+
+  (* ---------------------------------------------------------------- _ignore_none as the classes SEE it *)
+
+  Lemma resolve_ignore_none_opt g mro :
+    resolve_ignore_none g mro = match inherited_ignore_none g mro with Some b => b | None => false end.
+  Proof.
+    induction mro as [|c t IH]; cbn [resolve_ignore_none inherited_ignore_none]; [reflexivity|].
+    destruct (find_klass g c) as [kc|]; [|exact IH]. destruct (k_ignore_none kc); [reflexivity|exact IH].
+  Qed.
+
+  (* getattr(Derived, '_ignore_none', False) = getattr(Source, '_ignore_none', False), whether the source set
+     the attribute itself or inherits it *)
+  Theorem derive_ignore_none_effective g k o cn k' :
+    base_ok g -> resolve_ignore_none g [n_Structure] = false ->
+    find_klass g (k_name k) = Some k -> k_mro k = k_name k :: tl_str (k_mro k) ->
+    derived_name o cn k <> n_Structure ->
+    derive g k o cn = Ok k' ->
+    resolve_ignore_none (k' :: g) (k_mro k') = resolve_ignore_none g (k_mro k).
+  Proof.
+    intros Hb Hroot Hfind Hmro Hne H.
+    destruct (derive_spec g k o cn k' Hb H) as [ms [_ [_ [_ [_ [_ [Hm [Hname Hign]]]]]]]].
+    rewrite Hm, Hmro. cbn [resolve_ignore_none find_klass]. rewrite Hname, pystr_eqb_refl, Hfind, Hign.
+    unfold effective_ignore_none, bases_ignore_none.
+    destruct (k_ignore_none k) as [b|]; [reflexivity|].
+    rewrite (resolve_ignore_none_opt g (tl_str (k_mro k))).
+    destruct (inherited_ignore_none g (tl_str (k_mro k))) as [b|]; [reflexivity|].
+    destruct (pystr_eqb (derived_name o cn k) n_Structure) eqn:E.
+    - apply pystr_eqb_spec in E. contradiction.
+    - cbn [resolve_ignore_none] in Hroot. exact Hroot.
   Qed.
 
 End DeriveProofs.
